@@ -1653,7 +1653,9 @@ type Pattern struct {
 }
 
 func newPattern(pattern string) (*Pattern, error) {
-	r, err := regexp.Compile(pattern)
+	// a pattern has to match the whole value (RFC7950 Sec 9.4.5: XSD regular expressions are
+	// implicitly anchored at the head and tail)
+	r, err := regexp.Compile("^(?:" + pattern + ")$")
 	if err != nil {
 		return nil, err
 	}
